@@ -713,6 +713,16 @@ class Run:
             kind = plan[k % len(plan)]
             vr = random.Random('%d/%d/%d' % (self.scn['vseed'], j, k))
             decl = [m for i in spec['ifaces'] if i['name'] == iface for m in i['methods'] if m[0] == member][0]
+            # the declaration the CALL was dispatched under (its return signature is what send_reply uses): the one
+            # named by the message being processed; differs from the function's own only under mixed binding
+            for e in reversed(self.net.log):
+                if e[0] == 'recv' and e[1] == 'cli:%d' % j:
+                    cm = e[2]
+                    hit = [m for i in spec['ifaces'] if i['name'] == cm.get('iface') for m in i['methods']
+                           if m[0] == cm.get('member')]
+                    if cm.get('t') == 'call' and hit:
+                        decl = hit[0]
+                    break
             sig_out = decl[2]
             rec = {'export': ei, 'client': j, 'iface': iface, 'member': member, 'args': list(args), 'impl': fid,
                    'caller': caller, 'kind': kind, 'sigOut': sig_out, 'nret': len(complete_types(sig_out)),
